@@ -47,6 +47,27 @@ func genRacePlan(seed uint64, thorough bool) *Plan {
 				add("EXEC")
 			case 8:
 				add("WATCH", g.key())
+				if g.chance(2) {
+					// a watch that is examined from another database: WATCH here,
+					// SELECT elsewhere, then EXEC / CLIENT INFO / CLIENT LIST there,
+					// while other connections write the watched key
+					other := g.pick("1", "2")
+					add("SELECT", other)
+					if g.chance(2) {
+						add(g.concCmd(tk)...)
+					}
+					switch g.r.IntN(3) {
+					case 0:
+						add("CLIENT", g.pick("INFO", "LIST"))
+					default:
+						add("MULTI")
+						add(g.concCmd(tk)...)
+						add("EXEC")
+					}
+					if g.chance(2) {
+						add("SELECT", "0")
+					}
+				}
 			case 9:
 				add(g.pick("BLPOP", "BRPOP"), "l0", g.pick("0.01", "0.2", "1"))
 			case 10:
